@@ -661,7 +661,7 @@ TRANSPARENT_CALLS = {
     "std::convert::From::from", "std::borrow::ToOwned::to_owned", "std::iter::IntoIterator::into_iter",
     "std::borrow::BorrowMut::borrow_mut", "std::convert::AsMut::as_mut",
 }
-TRANSPARENT_SUFFIX = ("::clone", "::into_iter", "::deref", "::as_ref", "::borrow", "::to_owned", "::to_vec")
+TRANSPARENT_SUFFIX = ("::clone", "::into_iter", "::deref", "::as_ref", "::borrow", "::to_owned", "::to_vec", "::as_slice", "::as_mut_slice")
 
 
 def simplify_call(path, args, trait_path=None):
@@ -670,6 +670,8 @@ def simplify_call(path, args, trait_path=None):
     if path in ("std::result::Result::unwrap", "std::result::Result::<T, E>::unwrap", "core::result::Result::unwrap") or path.endswith("Result::unwrap") or path.endswith("Result::expect"):
         if args and args[0][0] == "call" and args[0][1] == "stdcode::serialize" and len(args[0][2]) == 1:
             return ("call", "stdcode::StdcodeSerializeExt::stdcode", (args[0][2][0],))
+    if len(args) == 1 and (path.endswith("Vec::as_slice") or path.endswith("Vec::<T, A>::as_slice") or path.endswith("::as_slice")):
+        return args[0]
     if tp == "tmelcrypt::Hashable::hash" and len(args) == 1:
         return ("call", "tmelcrypt::hash_single", (args[0],))
     if tp in TRANSPARENT_CALLS and len(args) == 1:
